@@ -82,6 +82,11 @@ enum Op {
 	/// resume the most recent paused sound at a clock time
 	ArmResume(usize, u64, f64),
 	Callback(usize),
+	/// the first half of a callback (`on_start_processing`); the ops up to the matching
+	/// `CallbackEnd` are issued between the two halves, where a second thread's calls can land
+	CallbackBegin,
+	/// the second half (`process`) of the callback opened by `CallbackBegin`
+	CallbackEnd(usize),
 }
 
 #[derive(Debug, Clone)]
@@ -286,6 +291,7 @@ struct Outcome {
 	event_mid_callback: bool,
 	events: usize,
 	own_clock_tween: bool,
+	mid_callback_ops: bool,
 }
 
 fn run_case(c: &Case, ctx: &mut Ctx) -> Result<Outcome, Failure> {
@@ -312,6 +318,7 @@ fn run_case(c: &Case, ctx: &mut Ctx) -> Result<Outcome, Failure> {
 		event_mid_callback: false,
 		events: 0,
 		own_clock_tween: false,
+		mid_callback_ops: false,
 	};
 	for (oi, op) in c.ops.iter().enumerate() {
 		match op {
@@ -543,15 +550,37 @@ fn run_case(c: &Case, ctx: &mut Ctx) -> Result<Outcome, Failure> {
 				e.waiter.live_from_callback = callback_counter;
 				out.events += 1;
 			}
-			Op::Callback(n) => {
+			Op::CallbackBegin => {
 				for e in &events {
 					e.log.calls.lock().unwrap().clear();
 				}
-				let cb = real.mgr.backend_mut().callback(*n, 2);
-				if let Some(p) = &cb.guard.panic {
+				let g = real.mgr.backend_mut().begin_callback();
+				if let Some(p) = &g.panic {
 					return Err(Failure::panic("", p));
 				}
 				model.on_start_processing();
+				// whatever is issued from here on is picked up by the next callback
+				callback_counter += 1;
+				out.mid_callback_ops = true;
+			}
+			Op::Callback(n) | Op::CallbackEnd(n) => {
+				if matches!(op, Op::Callback(_)) {
+					for e in &events {
+						e.log.calls.lock().unwrap().clear();
+					}
+					let g = real.mgr.backend_mut().begin_callback();
+					if let Some(p) = &g.panic {
+						return Err(Failure::panic("", p));
+					}
+					model.on_start_processing();
+					callback_counter += 1;
+				}
+				let cb = real.mgr.backend_mut().end_callback(*n, 2);
+				if let Some(p) = &cb.guard.panic {
+					return Err(Failure::panic("", p));
+				}
+				// index of the callback being processed
+				let this_callback = callback_counter - 1;
 				// chunks of this callback
 				let mut left = *n;
 				let first_chunk = chunk_counter;
@@ -561,7 +590,7 @@ fn run_case(c: &Case, ctx: &mut Ctx) -> Result<Outcome, Failure> {
 					model.chunk(dt * k as f64);
 					// which waiting events fire in this chunk (clock state at the end of the chunk)
 					for e in events.iter_mut() {
-						if e.waiter.fired.is_none() && !e.waiter.cancelled && callback_counter >= e.waiter.live_from_callback {
+						if e.waiter.fired.is_none() && !e.waiter.cancelled && this_callback >= e.waiter.live_from_callback {
 							match model.reached(e.waiter.clock, e.waiter.at) {
 								Some(true) => {
 									e.waiter.fired = Some(chunk_counter);
@@ -583,7 +612,6 @@ fn run_case(c: &Case, ctx: &mut Ctx) -> Result<Outcome, Failure> {
 					k_in_cb += 1;
 					left -= k;
 				}
-				callback_counter += 1;
 				// read the probes: one process call per chunk of this callback
 				for (ei, e) in events.iter_mut().enumerate() {
 					let calls = e.log.calls.lock().unwrap();
@@ -900,6 +928,32 @@ fn decode(src: &mut Src, ctx: &mut Ctx) -> Case {
 	for _ in 0..src.usize_in(2, 5) {
 		ops.push(Op::Callback(src.usize_in(1, ibs * 2)));
 	}
+	// a third of the histories issue some of their calls in the middle of a callback: the run of
+	// calls in front of a callback moves between its `on_start_processing` and its `process`
+	// (drawn after everything else so that older tapes keep their meaning)
+	if src.chance(1, 3) {
+		let mut moved = Vec::with_capacity(ops.len() + 8);
+		let mut run_start = 0usize; // index in `moved` where the current run of calls begins
+		for op in ops {
+			match op {
+				Op::Callback(n) => {
+					let run_len = moved.len() - run_start;
+					let movable = run_len > 0 && !moved[run_start..].iter().any(|o| matches!(o, Op::PlayPaused));
+					if movable && src.chance(1, 2) {
+						// keep a prefix of the run in front of the callback
+						let keep = src.usize_in(0, run_len - 1);
+						moved.insert(run_start + keep, Op::CallbackBegin);
+						moved.push(Op::CallbackEnd(n));
+					} else {
+						moved.push(Op::Callback(n));
+					}
+					run_start = moved.len();
+				}
+				other => moved.push(other),
+			}
+		}
+		ops = moved;
+	}
 	Case { ibs, sample_rate, ops }
 }
 
@@ -963,6 +1017,9 @@ impl Property for C05 {
 		}
 		if o.own_clock_tween {
 			classes.push("own-clock-speed-tween");
+		}
+		if o.mid_callback_ops {
+			classes.push("calls-between-the-halves-of-a-callback");
 		}
 		if case.ops.iter().any(|o| matches!(o, Op::SetSpeed(_, _, _, d) if *d > 0.0)) {
 			classes.push("speed-tween");
